@@ -323,6 +323,46 @@ func c03BodyLengthFlow(p *Program, r *Report) {
 				}
 			}
 		}
+		// an entry point that encodes a header it did not receive ready-made (it takes a frame or a
+		// raw frame, not a bare *Header) must set BodyLength itself before encoding the header
+		if callsEncodeHeader && fn.Name() != "EncodeHeader" && fn.Signature.Recv() != nil {
+			takesFrame := false
+			for _, pp := range fn.Params {
+				ts := types.TypeString(pp.Type(), relQual)
+				if ts == "*frame.Frame" || ts == "*frame.RawFrame" {
+					takesFrame = true
+				}
+			}
+			if takesFrame {
+				stores := false
+				for _, b := range fn.Blocks {
+					for _, ins := range b.Instrs {
+						if st, ok := ins.(*ssa.Store); ok {
+							if _, fld, ok := fieldAddrOf(st.Addr); ok && fld.Name() == "BodyLength" {
+								stores = true
+							}
+						}
+					}
+				}
+				// delegation to a sibling that does it (EncodeFrame -> encodeFrameCompressed/...)
+				delegates := false
+				for _, b := range fn.Blocks {
+					for _, ins := range b.Instrs {
+						if ci, ok := ins.(ssa.CallInstruction); ok {
+							if g := ci.Common().StaticCallee(); g != nil && g.Pkg == fn.Pkg && g != fn && strings.Contains(strings.ToLower(g.Name()), "encodeframe") {
+								delegates = true
+							}
+						}
+					}
+				}
+				skey := fnKey(fn) + " sets BodyLength"
+				if stores || delegates {
+					r.OKf("bodylength-flow", skey, fn.Pos(), "the declared length is (re)computed before the header is encoded")
+				} else {
+					r.Fail("bodylength-flow", skey, fn.Pos(), "%s encodes the header of a frame without setting Header.BodyLength to the length of the body it then writes: a body changed since the header was filled in goes out under a stale length and every following frame on the stream is misparsed", fn.Name())
+				}
+			}
+		}
 		for _, b := range fn.Blocks {
 			for _, ins := range b.Instrs {
 				st, ok := ins.(*ssa.Store)
